@@ -316,6 +316,86 @@ func (ni *nodeInst) exec(o string) string {
 		if expect {
 			timedOut = !ni.waitQueued(1)
 		}
+	case (f[0] == "uevdup" && len(f) == 4) || (f[0] == "qrydup" && len(f) == 5):
+		// the same user event / query delivered `times` times by gossip: how much the event / query queue grows
+		// per delivery.  qrydup <lt> <filter: none|other|tag> <nobroadcast01> <times>; uevdup <lt> <hexname> <times>
+		lt, e1 := strconv.ParseUint(f[1], 10, 64)
+		times, e2 := strconv.Atoi(f[len(f)-1])
+		if e1 != nil || e2 != nil || times < 1 || times > 20 {
+			return "bad-op"
+		}
+		var raw []byte
+		key := "event_queue"
+		if f[0] == "uevdup" {
+			name, ok := parseHexName(f[2])
+			if !ok {
+				return "bad-op"
+			}
+			raw, _ = serf.VerifEncodeUserEvent(lt, name, []byte("p"), false)
+		} else {
+			key = "query_queue"
+			var filters [][]byte
+			switch f[2] {
+			case "none":
+			case "other":
+				b, _ := serf.VerifEncodeFilterNode([]string{"some-other-node"})
+				filters = [][]byte{b}
+			case "tag":
+				b, _ := serf.VerifEncodeFilterTag("no-such-tag", "^required$")
+				filters = [][]byte{b}
+			default:
+				return "bad-op"
+			}
+			var flags uint32
+			if f[3] == "1" {
+				flags = serf.VerifQueryFlagNoBroadcast
+			}
+			raw, _ = serf.VerifEncodeQuery(serf.VerifQuery{LTime: lt, ID: uint32(lt)*7 + 3, Addr: []byte{127, 0, 0, 1}, Port: 1, SourceNode: "src",
+				Filters: filters, Flags: flags, Timeout: time.Hour, Name: "dup"})
+		}
+		q := func() int { n, _ := strconv.Atoi(ni.s.Stats()[key]); return n }
+		var growth []string
+		for i := 0; i < times; i++ {
+			before := q()
+			dg.NotifyMsg(raw)
+			growth = append(growth, strconv.Itoa(q()-before))
+		}
+		ni.drainEvents()
+		return "growth " + strings.Join(growth, ",")
+	case f[0] == "ml2" && len(f) == 4:
+		// two different claims about the running local node delivered back to back (no wait in between):
+		// every one of them must end up refuted by a join with a greater time.  Last op of a case.
+		a, e1 := strconv.ParseUint(f[1], 10, 64)
+		b, e2 := strconv.ParseUint(f[2], 10, 64)
+		if e1 != nil || e2 != nil || (f[3] != "0" && f[3] != "1") {
+			return "bad-op"
+		}
+		dg.NotifyMsg(serf.VerifEncodeLeave(a, nodeSelf, false))
+		dg.NotifyMsg(serf.VerifEncodeLeave(b, nodeSelf, f[3] == "1"))
+		var maxJoin uint64
+		joins := 0
+		deadline := time.Now().Add(3 * time.Second)
+		quiet := time.Now()
+		for time.Now().Before(deadline) && time.Since(quiet) < 150*time.Millisecond {
+			for _, raw := range ni.s.VerifDrainIntentQueue() {
+				d := serf.VerifDecodeIntent(raw)
+				if !d.Other && !d.Leave && d.Node == nodeSelf {
+					joins++
+					if d.LTime > maxJoin {
+						maxJoin = d.LTime
+					}
+					quiet = time.Now()
+				}
+			}
+			time.Sleep(5 * time.Millisecond)
+		}
+		self := "absent"
+		for _, m := range ni.s.Members() {
+			if m.Name == nodeSelf {
+				self = nodeStatusName(m.Status)
+			}
+		}
+		return fmt.Sprintf("refute2 self=%s joins=%d maxjoin=%d", self, joins, maxJoin)
 	case f[0] == "mg" && len(f) == 4:
 		lt, err := strconv.ParseUint(f[1], 10, 64)
 		if err != nil {
